@@ -131,6 +131,9 @@ func (e *Engine) doSend(c *ChanObj, v Value, pos string) {
 // (status BLOCKED) when every hook declined in a round; hooks that act without
 // unblocking get further rounds, up to a horizon.
 func (e *Engine) runHooks(chs []*ChanObj, ready func() bool) bool {
+	if e.termSignalled {
+		e.abort("LATE-BLOCK", "a blocking operation after the goroutine signalled termination")
+	}
 	for round := 0; round < 6; round++ {
 		acted := false
 		for _, c := range chs {
@@ -221,6 +224,9 @@ func (e *Engine) chanClose(c *ChanObj) {
 		e.callValue(c.onClose)
 	}
 	c.closed = true
+	if e.termWatch[c] {
+		e.termSignalled = true
+	}
 	e.tracef("close %s", c)
 	e.closeEvents = append(e.closeEvents, c)
 }
